@@ -84,9 +84,28 @@ def key_of(inst, t):
     return f"{prefix}/{t['attr']}"
 
 
+def gen_framework_config(rng):
+    """Owners set up by the framework itself: components, the robot and an autonomous mode of a real MagicRobot."""
+    cfg = gen_config(rng)
+    classes = cfg["classes"]
+    insts = []
+    names = ["shooter", "arm", "drive"]
+    rng.shuffle(names)
+    for i in range(rng.choice([1, 2, 3])):
+        insts.append({"cls": rng.choice(classes)["name"], "name": names[i], "prefix": "components"})
+    if rng.random() < 0.7:
+        insts.append({"cls": rng.choice(classes)["name"], "name": "robot", "prefix": None})
+    if rng.random() < 0.7:
+        insts.append({"cls": rng.choice(classes)["name"], "name": rng.choice(["Two Ball", "auto1", "Center"]), "prefix": "autonomous"})
+    cfg["instances"] = insts
+    cfg["framework"] = True
+    cfg["pre"] = []
+    return cfg
+
+
 def generate(seed, prop, tier, index=0):
     rng = random.Random(seed)
-    cfg = gen_config(rng)
+    cfg = gen_framework_config(rng) if index % 8 == 3 else gen_config(rng)
     # values that exist before setup (left by a dashboard / an earlier run of the robot code)
     for ii, inst in enumerate(cfg["instances"]):
         for t in attrs_of(cfg, inst["cls"]):
@@ -107,7 +126,7 @@ def generate(seed, prop, tier, index=0):
             ops.append(["get", ii, t["attr"]])
         elif r < 0.9:
             ops.append(["cget", ii, t["attr"]])
-        elif r < 0.95:
+        elif r < 0.95 and not cfg.get("framework"):
             ops.append(["restart", ii])
         else:
             ops.append(["adv", rng.choice([0, 1, 64]) * GRID_US])
@@ -254,6 +273,22 @@ def execute(plan, trace=False):
                 faults["pre_existing_value"] = faults.get("pre_existing_value", 0) + 1
 
         objs = [None] * len(insts)
+        if cfg.get("framework"):
+            objs = _framework_setup(world, cfg, mod, insts, prop, probe)
+            for ii, inst in enumerate(insts):
+                for a, t in tdefs[ii].items():
+                    k = keys[ii][a]
+                    if t["writeDefault"] or k not in model:
+                        if k in model:
+                            probe("default_overwrote_existing")
+                        model[k] = dec(t["kind"], t["default"])
+                    else:
+                        probe("existing_value_preserved")
+                    topic = nt.getTopic(k)
+                    want = KINDS[t["kind"]][0]
+                    if not topic.exists() or topic.getTypeString() != want:
+                        raise Violation(prop, "topic_type", f"framework setup: topic {k} has type {topic.getTypeString() if topic.exists() else '<no topic>'!r}, expected {want!r}",
+                                        sig=f"{prop}:topic_type")
 
         def setup(ii, idx):
             inst = insts[ii]
@@ -299,8 +334,9 @@ def execute(plan, trace=False):
                         raise Violation(prop, "client_read", f"op {idx} {op} ({what}): a NetworkTables client reads {got!r} at {k}, latest value is {want!r}",
                                         sig=f"{prop}:client_read", at=idx)
 
-        for ii in range(len(insts)):
-            setup(ii, -1)
+        if not cfg.get("framework"):
+            for ii in range(len(insts)):
+                setup(ii, -1)
         verify(-1, "setup", "after setup")
         last_writer = {}
         for idx, op in enumerate(plan["ops"]):
@@ -365,6 +401,61 @@ def execute(plan, trace=False):
         tr.insert(0, "generated owners:\n" + build_source(cfg) + f"\ninstances: {cfg['instances']}\npre-existing: {cfg['pre']}")
         res["trace"] = tr
     return res
+
+
+def _framework_setup(world, cfg, mod, insts, prop, probe):
+    """Let a real MagicRobot create and bind the owners: components by annotation, the robot class itself,
+    an autonomous mode discovered by the selector.  Returns the owner objects in instance order."""
+    import builtins
+    import importlib
+    import os
+    import shutil
+    import sys
+    import magicbot
+    rundir = os.path.join(os.getcwd(), "run")
+    shutil.rmtree(rundir, ignore_errors=True)
+    os.makedirs(os.path.join(rundir, "autonomous"))
+    os.chdir(rundir)
+    open(os.path.join(rundir, "autonomous", "__init__.py"), "w").close()
+    builtins._verif_owner_module = mod
+    auto = [i for i in insts if i["prefix"] == "autonomous"]
+    for i, inst in enumerate(auto):
+        with open(os.path.join(rundir, "autonomous", f"m{i}.py"), "w") as f:
+            f.write("import builtins\n_m = builtins._verif_owner_module\n"
+                    f"class Mode{i}(_m.{inst['cls']}):\n    MODE_NAME = {inst['name']!r}\n"
+                    "    def on_enable(self): pass\n    def on_disable(self): pass\n    def on_iteration(self, tm): pass\n")
+    sys.path.insert(0, rundir)
+    importlib.invalidate_caches()
+    ns = mod.__dict__
+    ns["magicbot"] = magicbot
+    L = []
+    comps = [i for i in insts if i["prefix"] == "components"]
+    for i in comps:
+        L += [f"class Comp_{i['name']}({i['cls']}):", "    def execute(self):", "        pass", ""]
+    rob = [i for i in insts if i["prefix"] is None]
+    bases = "magicbot.MagicRobot" + (f", {rob[0]['cls']}" if rob else "")
+    L.append(f"class Robot({bases}):")
+    for i in comps:
+        L.append(f"    {i['name']}: Comp_{i['name']}")
+    L += ["    def createObjects(self):", "        pass", "    def teleopPeriodic(self):", "        pass", ""]
+    try:
+        exec(compile("\n".join(L) + "\n", "<generated robot>", "exec"), ns)
+        robot = ns["Robot"]()
+        robot.robotInit()
+    except Exception as e:
+        import traceback
+        raise Violation(prop, "framework_setup_raised", f"MagicRobot.robotInit() raised {type(e).__name__}: {e} :: {traceback.format_exc()[-500:]}",
+                        sig=f"{prop}:framework_setup_raised")
+    probe("framework_setup_runs")
+    objs = []
+    for inst in insts:
+        if inst["prefix"] == "components":
+            objs.append(getattr(robot, inst["name"]))
+        elif inst["prefix"] is None:
+            objs.append(robot)
+        else:
+            objs.append(robot._automodes.modes[inst["name"]])
+    return objs
 
 
 def simplify(plan):
